@@ -20,8 +20,8 @@ META = dict(
           "decade / complex (Re>0) impedances; (2) seeded random connected "
           "networks (spanning tree + G(n,p)), 3..12 nodes quick / ..30 "
           "thorough, same impedance kinds; (3) 'large' networks 13..30 nodes "
-          "on which only the effective-resistance laws are evaluated (both "
-          "tiers); (4) update histories of length 1..4 on random networks "
+          "on which the effective-resistance laws (and on every 4th the "
+          "betweenness sums) are evaluated (both tiers); (4) update histories of length 1..4 on random networks "
           "(rescale / redraw / single link / no-op / real<->complex / list "
           "or integer input, redundant update_admittance/update_R calls), "
           "with a random subset of queries issued before every update and "
@@ -580,7 +580,6 @@ def queries(n, cplx):
 
 def next_resistances(rng, A, r, cplx_allowed):
     """returns (kind-of-step, new matrix)."""
-    n = len(A)
     step = str(rng.choice(["rescale", "redraw", "one-link", "noop",
                            "dtype-switch", "ints"],
                           p=[.2, .3, .2, .08, .12, .1]))
@@ -780,7 +779,7 @@ def run(ctx):
                     ctx.count("complex_illconditioned_skipped")
                 else:
                     with ctx.guard(120):
-                        check_network(ctx, RN, r, cid, full=False)
+                        check_network(ctx, RN, r, cid, full=(k % 4 == 1))
                         ctx.count("large_networks")
         # 4. histories
         if k <= cap_hist:
